@@ -135,6 +135,35 @@ def check_C07(run):
                     TRUSTED + ["compress/flate, golang/snappy, hash/crc32 as the environment's verdict on a damaged payload"])
 
 
+def check_vectors(run, prop):
+    cfg = ("MC_Wire_gen_thorough" if run.thorough() else "MC_Wire_gen_quick") if prop == "C03" else "MC_Wire_gen_proj_thorough"
+    cases, g = V.generate(run.scratch, "MC_Wire", cfg, timeout=3000)
+    run.models.append(g)
+    if prop == "C04":
+        # the projection universe (wide / nested records) plus the general universe (Read-vs-Skip on every kind)
+        cases2, g2 = V.generate(run.scratch, "MC_Wire", "MC_Wire_gen_thorough" if run.thorough() else "MC_Wire_gen_quick", timeout=3000)
+        run.models.append(g2)
+        with open(cases, "a") as w:
+            w.write(open(cases2).read())
+    out, meta = run.drive(prop, cases=cases)
+    total, rejected, states, _ = V.judge(run.scratch, "Trace_Codec", out)
+    cov = std_cov(run, meta, total, states,
+                  "TLC enumerates (schema, datum, legal encoding) over the bounded universe of MC_Wire (every composition of collections into blocks, sized or not, null in either union position) and proves Dec inverts each; "
+                  "each vector is wrapped in a container by the harness's own writer (3 codecs, 1..n file blocks) and read by ReadFile into generated target types; keys are schema kind|target variant|codec",
+                  extra=dict(tlc_vectors=meta.get("tlc_vectors"), schemas=meta.get("schemas")), exhaustive=False)
+    return cov, rejected, out
+
+
+def check_C03(run):
+    cov, rejected, out = check_vectors(run, "C03")
+    return V.finish("C03", run.tier, run.seed, "model_checking", cov, rejected, out, run.t0, TRUSTED + ["harness/schema2go.go (schema -> Go target types)"])
+
+
+def check_C04(run):
+    cov, rejected, out = check_vectors(run, "C04")
+    return V.finish("C04", run.tier, run.seed, "model_checking", cov, rejected, out, run.t0, TRUSTED + ["harness/schema2go.go (schema -> projected Go target types)"])
+
+
 CHECKS = {k[6:]: v for k, v in list(globals().items()) if k.startswith("check_C")}
 
 
